@@ -620,12 +620,54 @@ def rand_json(rng, depth):
     return [rand_json(rng, depth - 1) for _ in range(rng.choice([0, 1, 2, 3]))]
 
 
+SIG_LA_SHAPE = "last-applied document recorded for a differently shaped target: the comparison raises instead of reporting drift"
+
+
+def retype_value(rng, v):
+    """a value of ANOTHER kind than v: map <-> list <-> scalar, null, empty containers, bools, numbers, strings"""
+    pool = [None, True, False, 0, 7, 1.5, "", "str", [], {}, [{}], [1, "a"], ["k"], [["x"]], [{"name": "a"}, 1],
+            {"0": 1}, {"name": "a"}, {"k": {"a": 1}}, {"a": [1]}]
+    def kind(x):
+        return "map" if isinstance(x, dict) else "list" if isinstance(x, list) else "scalar"
+    other = [x for x in pool if kind(x) != kind(v)]
+    return copy.deepcopy(rng.choice(other if rng.random() < 0.8 else pool))
+
+
+def doc_paths(doc, pre=()):
+    yield pre
+    if isinstance(doc, dict):
+        for k, v in doc.items():
+            yield from doc_paths(v, pre + (k,))
+    elif isinstance(doc, list):
+        for i, v in enumerate(doc):
+            yield from doc_paths(v, pre + (i,))
+
+
+def retype_doc(rng, doc, n=None):
+    """the document as an EARLIER, differently shaped target would have recorded it: at one to three random paths
+    (any depth, also inside list items and under directive-governed keys) the value has another kind"""
+    doc = copy.deepcopy(doc)
+    for _ in range(n or rng.choice([1, 1, 2, 3])):
+        paths = list(doc_paths(doc))
+        path = rng.choice(paths)
+        if not path:
+            doc = retype_value(rng, doc)
+            continue
+        cur = doc
+        for st in path[:-1]:
+            cur = cur[st]
+        cur[path[-1]] = retype_value(rng, cur[path[-1]])
+    return doc
+
+
 def gen_la(rng, t, sent):
     r = rng.random()
     if r < 0.35:
         return None
-    if r < 0.75:
+    if r < 0.60:
         return copy.deepcopy(sent)
+    if r < 0.75:
+        return retype_doc(rng, sent)
     if r < 0.85:
         # koreo-written for an older target: some keys differ / are missing / have another shape
         la = copy.deepcopy(sent)
@@ -683,8 +725,11 @@ def check_unit_deviation(ctx: Ctx, t, live, la, desc, live2, cases, terms):
     ctx.count(f"unit-dev:{desc['kind']}")
     ctx.count(f"unit-dev-obs:{obs}")
     if obs != "mismatch":
-        small = shrink_unit(t, live, la, desc)
-        ctx.fail(Failure(signature=deviation_signature(desc["kind"], obs, "unit"),
+        small = shrink_unit(t, live, la, desc) if run_validate(t, live, la) == "match" else case
+        sig = deviation_signature(desc["kind"], obs, "unit")
+        if desc.get("la") == "retyped" and obs != "match":
+            sig = SIG_LA_SHAPE
+        ctx.fail(Failure(signature=sig,
                          what=f"validate_match on a live object that deviates from the target ({desc['kind']} at "
                               f"{desc['path']}) gave {obs}, expected match=False",
                          case=small, observed=obs, expected="mismatch"))
@@ -751,8 +796,13 @@ def run_unit(ctx: Ctx, cases, terms):
         devs = list(deviations(t, live))
         if quick and len(devs) > 60:
             devs = rng.sample(devs, 60)
-        for desc, live2 in devs:
+        for di, (desc, live2) in enumerate(devs):
             check_unit_deviation(ctx, t, live, la, desc, live2, cases, terms)
+            if di % 4 == 0:
+                # the same drift, but the annotation was recorded for an EARLIER, differently shaped target:
+                # whatever the recorded document looks like, the drift must be reported (not an exception)
+                la2 = retype_doc(rng, sent)
+                check_unit_deviation(ctx, t, live, la2, dict(desc, la="retyped"), live2, cases, terms)
 
 
 # ---------------------------------------------------------------------------
@@ -1047,7 +1097,9 @@ def run_flow_case(ctx: Ctx, case, cases, terms, oracle=True):
         why = flow_oracle(case, p2, p3, va["t"] if va else _TARGETS.get(json.dumps(case["body"])))
         if why:
             kind = case["dev"]["kind"]
-            if why[0] == "raises":
+            if why[0] == "raises" and case["dev"].get("la") == "retyped":
+                sig = SIG_LA_SHAPE
+            elif why[0] == "raises":
                 sig = deviation_signature(kind, p2["outcome"]["exc"], "flow")
             elif why[0] == "calls" and not p2["mutations"] and case["policy"] != "never":
                 sig = deviation_signature(kind, "match", "flow")
@@ -1244,6 +1296,16 @@ def run_flow(ctx: Ctx, cases, terms):
             run_flow_case(ctx, {"kind": "flow", "body": body, "policy": policy, "delay": delay, "owned": owned,
                                 "live": live2, "dev": desc, "prime": live if di % 3 != 1 else None}, cases, terms)
             ctx.count(f"flow-dev:{desc['kind']}")
+            # the same drift, the annotation recorded for an earlier, differently shaped target
+            if di % 3 == 0:
+                l6 = copy.deepcopy(live2)
+                pa = parse_annotation(l6)
+                if pa and pa[0] == "ok" and isinstance(l6.get("metadata"), dict) and isinstance(l6["metadata"].get("annotations"), dict):
+                    l6["metadata"]["annotations"][ANNOTATION] = json.dumps(retype_doc(rng, pa[1]))
+                    pol = ["patch", "recreate", "never"][(bi + di // 3) % 3]
+                    run_flow_case(ctx, {"kind": "flow", "body": body, "policy": pol, "delay": delay, "owned": owned,
+                                        "live": l6, "dev": dict(desc, la="retyped")}, cases, terms)
+                    ctx.count(f"flow-dev-la-retyped:{pol}")
             # the same drift on an object that ALSO lacks the parent's owner reference (adopted object, or
             # ownerReferences rewritten along with the drift): still exactly the policy's action
             if owned and di % 2 == 0:
